@@ -77,6 +77,7 @@ func c03Docs(thorough bool) []*Node {
 	}
 	// hand-picked data making the pool take every value
 	mp := func(kv ...*Node) *Node { return NMap(TStr, TAny, kv...) }
+	out = append(out, NNilAny(), NNilPtr(NStruct(F{Name: "A", V: one}).T)) // a nil datum: every part errors, so does every composite (not: no exception)
 	out = append(out,
 		mp(str("a"), one), mp(str("a"), str("a")), mp(str("a"), str("")), mp(str("a"), str("aaa")),
 		mp(str("a"), mp(str("a"), one)), mp(str("a"), mp(str("a"), str("a"))), mp(str("a"), mp()),
